@@ -360,7 +360,8 @@ def _one_model(ctx, variant, rng, mg, quick, exact_rows):
         ref = np.sqrt(np.clip(np.einsum("ki,ij,kj->k", J, V, J), 0, None))
         jsum = J[diag_idx].sum(axis=0)
         ref_sum = math.sqrt(max(jsum @ V @ jsum, 0.0))
-        paths = ["old", "new"] + (["config_old", "config_new"] if vname == "inv_he" else [])
+        # "new_twice": the FitFractions object integrates a second time (another batch size) before it is read
+        paths = ["old", "new", "new_twice"] + (["config_old", "config_new"] if vname == "inv_he" else [])
         for method in paths:
             extra = {}
             with _quiet():
@@ -368,6 +369,10 @@ def _one_model(ctx, variant, rng, mg, quick, exact_rows):
                 if method.startswith("config_"):
                     c.inv_he = V
                     ret = c.cal_fitfractions(params_at_min, mcdata=phsp, batch=900, method=method[7:])
+                elif method == "new_twice":
+                    ret = fit_fractions(amp, phsp, V, params_at_min, batch=900, res=list(res), method="new")
+                    with amp.temp_params(params_at_min):
+                        ret.integral(phsp, batch=450)
                 else:
                     ret = fit_fractions(amp, phsp, V, params_at_min, batch=900, res=list(res), method=method)
                 if method.endswith("old"):
